@@ -69,6 +69,18 @@ CHECKS = {
             "are not covered; list-form adds that would partially fail and network replacement colliding with obstacles are "
             "outside the statement and not generated",
             "DESIGN.md §4 C09"),
+    "C12": ("exhaustive one-factor enumeration: every class x 2 bases x every constructor parameter x every alternative value "
+            "x permuted insertion orders (thorough: all parameter pairs for container classes), evaluated on freshly built "
+            "real objects against the eq/hash contract",
+            "50 classes (every shape, interval, every state class via dataclass introspection, signal state, trajectory, "
+            "occupancy, predictions, all obstacle roles, stop line, lanelet, signs, lights, intersections, areas, map "
+            "information, goal region, planning problem(s), scenario id, time/geo/environment/location, lanelet network and "
+            "scenario built by operations): reflexivity, deepcopy, rebuild-equality, symmetry, inequality for every "
+            "single-parameter change (reals +1e-9 and scaled), order independence of id sets, hash totality and "
+            "eq => equal hash. Complete over the alternative tables.",
+            "trusted: the alternative tables (hand-written per class) and the 'still visibly different after construction' "
+            "guard; list-typed parameters whose comparison the library defines as set-based are not asserted order-sensitive",
+            "DESIGN.md §4 C12"),
 }
 
 NOT_YET = {}
